@@ -650,6 +650,9 @@ class FormulaManager(object):
 
         if width is None:
             raise PysmtValueError("Need to specify a width for the constant")
+        if width <= 0:
+            raise PysmtValueError("The width of a BV must be positive, got %s" %
+                                  str(width))
 
         if is_pysmt_integer(value):
             _value = cast(int, value) #TODO: this is incorrect, we should define a custom "Integer" type including mpz. Try with IntegerClass from constants
@@ -1019,7 +1022,10 @@ class FormulaManager(object):
 
     def BVRepeat(self, formula: FNode, count: int=1) -> FNode:
         """Returns the concatenation of count copies of formula."""
-        res = formula
+        if count < 1:
+            raise PysmtValueError("BVRepeat expects a positive count, got %d" %
+                                  count)
+        res = self._check_single_arg(formula, "BVRepeat", _is_bv)
         for _ in range(count-1):
             res = self.BVConcat(res, formula)
         return res
